@@ -101,7 +101,6 @@ Proof.
 Qed.
 
 (* ------------------------------------------------------------ stability of an owning wrapper's elements *)
-Definition owning (s : slot) : Prop := match s with SEmpty | SView _ => False | _ => True end.
 Definition cells_kept (h h' : list buffer) (b : nat) :=
   forall bu, nth_error h b = Some bu -> exists bu', nth_error h' b = Some bu' /\ b_cells bu' = b_cells bu.
 
